@@ -13,7 +13,7 @@ RULE = ("1..4 TPDOs with generated mappings (1..8 objects of 1/2/3/4 bytes, <= 8
         "(tick, identifier, dlc, data) TPDO emissions of every step are compared with a reference model in ticks, plus a systematic sweep of "
         "(inhibit, event, trigger offset) in {0..6}^3 x 10 ticks (every relative order and coincidence of trigger, inhibit end and event expiry); non-trivial = history with >= 1 deferred (inhibited) transmission, event "
         "expiry or n-th-SYNC transmission; distinct by script")
-ASSUMPTIONS = ["times are whole numbers of ticks (10 kHz timer: 100 us = 1 tick)", "first event-timer expiry after activation accepted in [E, E+CO_TPDO_N-1]",
+ASSUMPTIONS = ["times are whole numbers of ticks (10 kHz timer: 100 us = 1 tick; 1 MHz timer: 100 ticks)", "first event-timer expiry after activation accepted in [E, E+CO_TPDO_N-1]",
                "RTR and transmission types 0, 241..253 are not generated",
                "the inhibit time is only changed while the node is not OPERATIONAL"]
 VARIANTS = ["asan"]
@@ -155,7 +155,7 @@ class TModel:
 
 def gen_world(rng, sweep=None):
     nid = rng.choice([1, 2, 50])
-    freq = 10000
+    freq = 10000 if (sweep is not None or rng.random() < 0.7) else 1000000      # 1 MHz: inhibit / event times of 6.6 ms and more exceed 65535 ticks
     objs = {}
     cfg = Config(nodeid=nid, freq=freq, tmrnum=32)
     gen.add_mandatory(cfg, hb=0, sync_id=0x80, ssdo=1, ssdo_rw=False)
@@ -190,8 +190,8 @@ def gen_world(rng, sweep=None):
             cfg.add(var(0x2100, 0, objs[(0x2100, 0)][1], objs[(0x2100, 0)][0], objs[(0x2100, 0)][2]))
         else:
             typ = rng.choice([254, 255, 254, 255, 1, 2, 3, 10, 240])
-            inh = rng.choice([0, 0, 1, 2, 3, 5, 10, 50])
-            ev = rng.choice([0, 0, 1, 2, 5, 10])        # ms -> 10 ticks each at 10 kHz
+            inh = rng.choice([0, 0, 1, 2, 3, 5, 10, 50] + ([700, 1000] if freq > 10000 else []))
+            ev = rng.choice([0, 0, 1, 2, 5, 10] + ([70, 100] if freq > 10000 else []))        # ms -> 10 ticks each at 10 kHz
         cob = 0x40000180 + 0x100 * num
         if rng.random() < 0.1 and sweep is None:
             cob |= 0x80000000
@@ -208,7 +208,8 @@ def gen_world(rng, sweep=None):
                 rmap.append((idx, sub, 8 * w)); total += w
         gen.add_rpdo(cfg, 0, 0x200, 255, [gen.maplink(*m) for m in rmap])
     cfg.finalize()
-    units = (1, 10)
+    cfg.scale = freq // 10000
+    units = (cfg.scale, 10 * cfg.scale)
     cfg.rmap = rmap
     return cfg, nid, objs, tps, units
 
@@ -256,7 +257,12 @@ def run_history(res, exe, rng, first, sweep=None):
         ops = []
         if sweep is not None:
             inh, ev, off = sweep
-            ops = [("nmt", 1), ("tick", 1), ("trig", 0), ("tick", off), ("wrchange", (0x2100, 0)), ("tick", 1), ("wrchange", (0x2100, 0)), ("tick", 150), ("trig", 0), ("tick", 200)]
+            ops = [("nmt", 1), ("tick", 1), ("trig", 0), ("tick", off), ("wrchange", (0x2100, 0)), ("tick", 1), ("wrchange", (0x2100, 0))]
+            # ... then, inside the next period, a re-configuration that has to find and stop the timers started at the coincidence
+            k = rng.randrange(4)
+            mid = rng.choice([1, 3, max(1, inh - 1), max(1, ev * 10 - 1), inh + 2])
+            ops += [("tick", mid)] + {0: [], 1: [("event", 0, ev)], 2: [("cobid", 0), ("cobid", 0)], 3: [("nmt", 128), ("nmt", 1)]}[k]
+            ops += [("tick", 150), ("trig", 0), ("tick", 200)]
             nsteps = len(ops)
         else:
             ops = None
@@ -267,7 +273,9 @@ def run_history(res, exe, rng, first, sweep=None):
             else:
                 x = rng.random()
                 if x < 0.30:
-                    op = ("tick", rng.choice([1, 1, 2, 3, 5, 9, 10, 11, 20, 50, 100, 130]))
+                    op = ("tick", rng.choice([1, 1, 2, 3, 5, 9, 10, 11, 20, 50, 100, 130]) * cfg.scale + (rng.choice([0, 0, 1, -1]) if cfg.scale > 1 else 0))
+                    if cfg.scale > 1 and rng.random() < 0.2:
+                        op = ("tick", rng.choice([700, 1000, 1100]) * cfg.scale)
                 elif x < 0.45:
                     op = ("wrchange", rng.choice(list(objs)))
                 elif x < 0.50:
@@ -370,7 +378,7 @@ def run_history(res, exe, rng, first, sweep=None):
                 if not cand:
                     continue
                 T, tgt = min(cand, key=lambda c: c[0])
-                if T - now > 300:
+                if T - now > 300 * cfg.scale:
                     continue
                 what = op[1]
                 script.append("svc %d (timer event of TPDO%d pending @%d); %s; tproc" % (T - now, tgt.num, T, what))
